@@ -59,7 +59,14 @@ func New(options ...VMOption) *VM {
 func (v *VM) btErr(r any) error {
 	bt := v.backtrace
 	var lines []string
-	i := v.frame.Codes[v.frame.N]
+	n := v.frame.N
+	if n >= len(v.frame.Codes) { // the body ran off its end (e.g. a result is missing): report its last instruction
+		n = len(v.frame.Codes) - 1
+	}
+	if n < 0 {
+		return fmt.Errorf("%v", r)
+	}
+	i := v.frame.Codes[n]
 	lines = append(lines, fmt.Sprintf("%v: %v: %v", i.Pos.String(v.globals), i.Code, r))
 	for n := len(bt) - 1; n >= 0; n-- {
 		pos := bt[n]
